@@ -2651,6 +2651,20 @@ func (p *Posix) UploadPartCopy(ctx context.Context, upi *s3.UploadPartCopyInput)
 		return s3response.CopyPartResult{}, fmt.Errorf("stat object: %w", err)
 	}
 
+	// a delete marker is no copy source (see CopyObject)
+	if p.versioningEnabled() {
+		isDelMarker, err := p.isObjDeleteMarker(srcBucket, srcObject)
+		if err != nil {
+			return s3response.CopyPartResult{}, err
+		}
+		if isDelMarker {
+			if srcVersionId != "" {
+				return s3response.CopyPartResult{}, s3err.GetAPIError(s3err.ErrInvalidRequest)
+			}
+			return s3response.CopyPartResult{}, s3err.GetAPIError(s3err.ErrNoSuchKey)
+		}
+	}
+
 	startOffset, length, err := backend.ParseCopySourceRange(fi.Size(), *upi.CopySourceRange)
 	if err != nil {
 		return s3response.CopyPartResult{}, err
@@ -4229,6 +4243,21 @@ func (p *Posix) CopyObject(ctx context.Context, input s3response.CopyObjectInput
 	}
 	if !strings.HasSuffix(srcObject, "/") && fi.IsDir() {
 		return nil, s3err.GetAPIError(s3err.ErrNoSuchKey)
+	}
+
+	// a delete marker is no copy source: the key reads as missing (as in
+	// GetObject), the marker itself has no data
+	if p.versioningEnabled() {
+		isDelMarker, err := p.isObjDeleteMarker(srcBucket, srcObject)
+		if err != nil {
+			return nil, err
+		}
+		if isDelMarker {
+			if srcVersionId != "" {
+				return nil, s3err.GetAPIError(s3err.ErrInvalidRequest)
+			}
+			return nil, s3err.GetAPIError(s3err.ErrNoSuchKey)
+		}
 	}
 
 	mdmap := make(map[string]string)
